@@ -83,6 +83,9 @@ def values():
         V.append(("sympy-signed-power", str(v), lambda v=v: v))
     for v in (q1a, 2 * q1a - q2_0, pix + a, sqrt2 * 2, p0 - a, q2_0 / pix):
         V.append(("sympy-lookalike-names", str(v), lambda v=v: v))
+    lam, E_, I_, S_, N_, none_, is_ = [sym.Symbol(n) for n in ("lambda", "E", "I", "S", "None", "N", "is")]     # names that mean something to Python or SymPy
+    for v in (lam, 2 * lam - E_, I_ * (S_ - 2), none_ / is_, N_ ** 2 + lam):
+        V.append(("sympy-host-names", str(v), lambda v=v: v))
     for v in (sym.sqrt(a), sym.sin(a) + 1, sym.exp(-a) * b):
         V.append(("sympy-function", str(v), lambda v=v: v))
     # sweep values (each used singly in every position, not in the pair families): floats at and around values a
